@@ -148,7 +148,7 @@ def sprinkle_faults(prng, plan, n=1):
         f = {'kind': k}
         if k == 'F1':
             f['at'] = prng.choice([2, 3, 5, 8, 13, 21, 34, 55])
-            f['exc'] = prng.choice(['fault', 'interrupt'])
+            f['exc'] = prng.choice(['fault', 'fault', 'interrupt', 'interrupt', 'exit', 'cancel'])
         elif k == 'F3':
             f['at'] = prng.choice([2, 3, 5, 8, 13, 21, 34])
             f['mid'] = prng.random() < 0.3
